@@ -90,7 +90,7 @@ theorem parseNode_printNode (n : Node) (h : NodeOK n) : parseNode (printNode n) 
   simp only at hty hid hnl
   have hhead : ty.head? = some slash := by
     simp only [validType, Bool.and_eq_true, beq_iff_eq] at hty
-    exact hty.1.1.2
+    exact hty.1.1.1.2
   obtain ⟨trest, rfl⟩ : ∃ r, ty = slash :: r := by
     cases ty with
     | nil => simp at hhead
@@ -815,7 +815,7 @@ theorem printObj_head (L : Leaf) (hL : LeafLaws L) (o : Obj) (h : ObjOK L o) :
     simp only at hty
     have hhead : ty.head? = some slash := by
       simp only [validType, Bool.and_eq_true, beq_iff_eq] at hty
-      exact hty.1.1.2
+      exact hty.1.1.1.2
     obtain ⟨trest, rfl⟩ : ∃ r, ty = slash :: r := by
       cases ty with
       | nil => simp at hhead
@@ -896,7 +896,7 @@ theorem parseTriple_printTriple (L : Leaf) (hL : LeafLaws2 L) (t : Triple)
   have hty := hs.ty
   have hhead : s.ty.head? = some slash := by
     simp only [validType, Bool.and_eq_true, beq_iff_eq] at hty
-    exact hty.1.1.2
+    exact hty.1.1.1.2
   let N0 := s.ty ++ [lt] ++ s.id
   have hN : printNode s = N0 ++ [gt] := by simp [printNode, N0]
   have hN0ns : ∀ x ∈ N0, reSpace x = false := by
